@@ -91,7 +91,16 @@ func sample(rng *rand.Rand, n *Node, alpha []rune, out *[]rune, depth int) {
 			if k > l {
 				k = l
 			}
-			*out = append(*out, (*out)[l-k:]...)
+			chunk := append([]rune{}, (*out)[l-k:]...)
+			if rng.Intn(3) == 0 {
+				// the same text in the other case: equal to the capture only case-insensitively
+				for i, r := range chunk {
+					if p, ok := SimplePartner(r); ok {
+						chunk[i] = p
+					}
+				}
+			}
+			*out = append(*out, chunk...)
 		}
 	case KCondRef:
 		sample(rng, n.Subs[rng.Intn(2)], alpha, out, depth)
